@@ -82,8 +82,18 @@ package cmd
 // compare trees (property C11): every result channel that is drained is non-nil
 // ---------------------------------------------------------------------------
 
+// compare trees (property C08): what is printed per tree is the identifier followed by, with --rf, the sum of the two
+// specific counts, otherwise reference-specific, common and compared-specific counts in that order; the weighted
+// distances add |difference| (resp. its square) of every common branch and the length (resp. its square) of every
+// specific branch of either tree
 //@ func cmd.compareTreesCmd.RunE
 //@   flag noframe
+//@   call fmt.Printf@L8 [rf_is_the_sum_of_the_two_specific_counts] a0 == "%d\n" && len(a1) == 1 && iref(a1[0]) == st.Tree1 + st.Tree2
+//@   call fmt.Printf@L10 [identifier_then_reference_common_compared] a0 == "%d\t%d\t%d\t%d\n" && len(a1) == 4 && iref(a1[0]) == st.Id && iref(a1[1]) == st.Tree1 && iref(a1[2]) == st.Common && iref(a1[3]) == st.Tree2
+//@   loop 3
+//@     step [a_common_branch_adds_the_absolute_difference_and_its_square] next(wrf) == wrf + abs(diff) && next(kf) == kf + mathpow(diff, 2.0)
+//@   loop 5
+//@     step [a_specific_branch_adds_its_length_and_its_square] next(wrf) == wrf + length && next(kf) == kf + mathpow(length, 2.0)
 
 // ---------------------------------------------------------------------------
 // Seeding (properties C18, C19): before every command the global generator is seeded exactly once, with the
